@@ -73,6 +73,8 @@ type BlockInfo struct {
 	Params []string
 	Ctx    Kind // context kind its body assumes (KAny: whatever the caller has)
 	File   string
+	// YieldsContent: the body contains {{yield content}} (maybe below an if or a range)
+	YieldsContent bool
 }
 
 type World struct {
@@ -121,18 +123,19 @@ type fileGen struct {
 }
 
 type G struct {
-	T            *sim.Tape
-	O            Options
-	W            *World
-	nText        int
-	nVar         int
-	nBlk         int
-	f            *fileGen
-	incs         []string // includable files (already generated)
-	probesOn     bool
-	budget       int // remaining statements in this world (bounds the cost of a run)
-	targetPlaced bool
-	rets         []string // exec targets
+	T             *sim.Tape
+	O             Options
+	W             *World
+	nText         int
+	nVar          int
+	nBlk          int
+	nYieldContent int
+	f             *fileGen
+	incs          []string // includable files (already generated)
+	probesOn      bool
+	budget        int // remaining statements in this world (bounds the cost of a run)
+	targetPlaced  bool
+	rets          []string // exec targets
 }
 
 func (g *G) emit(s string) {
@@ -309,6 +312,16 @@ func (g *G) stmt(sc *scopeInfo) {
 		}
 		return 0
 	}
+	inTarget := false
+	for _, e := range sc.encl {
+		if e == "TARGET" {
+			inTarget = true
+		}
+	}
+	yieldWt := 3
+	if inTarget {
+		yieldWt = 7 // failures below a yield (block body, yielded content) are the deep unwinding cases
+	}
 	k := g.T.Weighted(
 		4,                // 0 text
 		3,                // 1 print expr
@@ -318,7 +331,7 @@ func (g *G) stmt(sc *scopeInfo) {
 		w(o.If && !deep, 2),    // 5 if
 		w(o.Range && !deep, 3), // 6 range
 		w(o.Blocks && !deep && sc.depth == 0 && !sc.noLocals, 2), // 7 block definition (top level of a file only)
-		w(o.Blocks && !deep && len(g.f.blocks) > 0, 3),           // 8 yield
+		w(o.Blocks && !deep && len(g.f.blocks) > 0, yieldWt),     // 8 yield
 		w(sc.inBlock, 3), // 9 yield content
 		w(o.Include && !deep && len(g.incs) > 0, 2), // 10 include
 		w(o.Try && !deep, 3),                        // 11 try
@@ -392,8 +405,16 @@ func (g *G) stmt(sc *scopeInfo) {
 	case 7:
 		g.blockDef(*sc)
 	case 8:
-		g.yieldStmt(*sc)
+		g.yieldStmt(*sc, false)
 	case 9:
+		g.nYieldContent++
+		if g.O.TargetTry && g.O.Vars && g.T.Choose(2) == 1 {
+			// a declaration in the list that yields the content: its scope is open (and its release
+			// pending) while the caller's content runs
+			v := g.newVar()
+			g.act(v + " := " + g.strExpr(*sc, 1))
+			sc.vars = append(sc.vars, v)
+		}
 		if g.T.Choose(3) == 2 {
 			g.act("yield content " + g.ctxExpr(*sc, KItem))
 		} else {
@@ -571,7 +592,9 @@ func (g *G) blockDef(sc scopeInfo) {
 	for _, p := range bi.Params {
 		g.act(p)
 	}
+	nyc := g.nYieldContent
 	g.list(in, g.O.MaxStmts-1)
+	bi.YieldsContent = g.nYieldContent > nyc
 	if g.T.Choose(2) == 1 {
 		g.act("content")
 		dc := sc.child("block-default-content")
@@ -585,8 +608,22 @@ func (g *G) blockDef(sc scopeInfo) {
 	g.W.Blocks = append(g.W.Blocks, bi)
 }
 
-func (g *G) yieldStmt(sc scopeInfo) {
+// yieldStmt yields one of the visible blocks. deep: prefer a block that renders its caller's content,
+// pass content, and put a fault point first in it (the failure then unwinds through the content
+// closure, the block body and the yield statement).
+func (g *G) yieldStmt(sc scopeInfo, deep bool) {
 	bi := g.f.blocks[g.T.Choose(len(g.f.blocks))]
+	if deep {
+		var yc []BlockInfo
+		for _, b := range g.f.blocks {
+			if b.YieldsContent {
+				yc = append(yc, b)
+			}
+		}
+		if len(yc) > 0 {
+			bi = yc[g.T.Choose(len(yc))]
+		}
+	}
 	s := "yield " + bi.Name + "("
 	// named arguments in shuffled order, some omitted
 	idx := make([]int, len(bi.Params))
@@ -624,11 +661,18 @@ func (g *G) yieldStmt(sc scopeInfo) {
 		}
 		s += " " + g.ctxExpr(sc, k)
 	}
-	if g.T.Choose(2) == 1 {
+	withContent := g.T.Choose(2) == 1
+	if deep || (g.O.TargetTry && sc.inTry > 0 && g.T.Choose(2) == 1) {
+		withContent = true
+	}
+	if withContent {
 		g.act(s + " content")
 		in := sc.child("yield-content")
 		in.ctx = KAny
 		in.inBlock = sc.inBlock
+		if deep && g.probesOn {
+			g.act(g.probeExpr(in, false))
+		}
 		g.list(in, g.O.MaxStmts-1)
 		g.act("end")
 	} else {
@@ -753,6 +797,9 @@ func (g *G) targetTry(sc scopeInfo) {
 	in.inTry++
 	in.vars = nil // the body only declares its own variables (roll-back of outer assignments is not demanded)
 	g.probesOn = true
+	if g.O.Blocks && len(g.f.blocks) > 0 && g.T.Choose(3) == 0 {
+		g.yieldStmt(in, true)
+	}
 	g.list(in, g.O.MaxStmts)
 	// make sure the body has at least one fault point
 	g.act(g.probeExpr(in, false))
